@@ -109,7 +109,7 @@ structure Summary where
   keeps : Bool
   /-- what a returned value may be (relative to the callee's activation) -/
   ret : AVal
-  deriving Repr
+  deriving Repr, DecidableEq
 
 inductive Kind where
   /-- public, documented as having no side effect -/
